@@ -114,7 +114,10 @@ InFails(e) ==
   IF e.outcome = "panic" THEN "membership crashed; "
   ELSE IF e.item.t = "Null" THEN F(e.outcome = "value" /\ e.r.t = "Null", "Null does not propagate through membership")
   ELSE LET w == InExpect(e.eqs, 1) IN
-       IF w = "error" THEN F(e.outcome = "error", "membership over an incomparable element did not yield an error")
+       \* an element that cannot be compared with the value stands before the first equal one (or there is no equal one): the search
+       \* may stop there with an error, or go on - it answers true only if some element equals the value, and never false
+       IF w = "error" THEN F(e.outcome = "error" \/ (e.outcome = "value" /\ e.r.k = "bool" /\ e.r.n = 1 /\ \E i \in 1 .. Len(e.eqs) : e.eqs[i] = "true"),
+                             "membership over an incomparable element yielded neither an error nor a found equal element")
        ELSE F(e.outcome = "value" /\ e.r.k = "bool" /\ (e.r.n = 1) = (w = "true"), "membership is not 'some element equals the value'")
 ElemFails(e) ==
   IF e.outcome = "panic" THEN "indexing crashed (an index out of range must be an error); "
